@@ -26,6 +26,7 @@ fn groups_for(prop: &str, ctx: &Ctx) -> Vec<Box<dyn Group>> {
         "C05" => vec![Box::new(c05::Serve)],
         "C13" => vec![Box::new(c13::Decisions)],
         "C17" => vec![Box::new(c17::Hist::new(ctx))],
+        "C08" => vec![Box::new(c08::Framing)],
         _ => vec![],
     }
 }
